@@ -11,7 +11,11 @@
 #include <cstdio>
 #include <cstdlib>
 #include <cstring>
+#include <atomic>
 #include <mutex>
+#include <thread>
+#include <sched.h>
+#include <time.h>
 #include <sstream>
 #include <string>
 #include <system_error>
@@ -27,7 +31,7 @@ void wrap_init(void);
 void wrap_reset_case(void);
 }
 
-static long st_cases, st_viol, st_calls, st_bytes, st_runs, st_stops, st_strings, st_timeouts;
+static long st_cases, st_viol, st_calls, st_bytes, st_runs, st_stops, st_strings, st_timeouts, st_locked_looks;
 
 static void viol(const char *cls, long idx, const std::string &msg)
 {
@@ -153,7 +157,10 @@ static void one_case(long idx)
     // plain drain with recording lambdas; kind 1: a sink fails at call k
     if (kind == 1) {
       rec.fail_at = static_cast<int>(rnd() % 6);
-      rec.fail_ec = std::make_error_code(rnd() % 2 ? std::errc::interrupted : std::errc::no_space_on_device);
+      // also the codes the wrapper itself gives a meaning to (a closed stream, a deadline, "try again")
+      static const std::errc codes[] = { std::errc::interrupted, std::errc::no_space_on_device, std::errc::broken_pipe, std::errc::broken_pipe,
+                                         std::errc::timed_out, std::errc::resource_unavailable_try_again, std::errc::operation_in_progress };
+      rec.fail_ec = std::make_error_code(codes[rnd() % 7]);
     }
     reproc::process p;
     std::error_code ec = p.start(args, o);
@@ -188,8 +195,34 @@ static void one_case(long idx)
     std::mutex mu;
     reproc::process p;
     if (p.start(args, o)) return;
-    std::error_code ec = rnd() % 2 ? reproc::drain(p, reproc::sink::string(so), reproc::sink::string(se))
-                                   : reproc::drain(p, reproc::sink::thread_safe::string(so, mu), reproc::sink::thread_safe::string(se, mu));
+    std::error_code ec;
+    if (rnd() % 2) {
+      ec = reproc::drain(p, reproc::sink::string(so), reproc::sink::string(se));
+    } else {
+      // another thread takes the mutex again and again and looks at the strings while it has it: they must
+      // not change under its eyes ("locks the given mutex before appending")
+      std::atomic<bool> stop_mon(false);
+      std::atomic<long> changed(0), looks(0);
+      std::thread mon([&]() {
+        while (!stop_mon.load()) {
+          {
+            std::lock_guard<std::mutex> lk(mu);
+            size_t a = so.size(), b = se.size();
+            struct timespec ts = { 0, 300000 };
+            nanosleep(&ts, nullptr);
+            if (so.size() != a || se.size() != b) changed++;
+            looks++;
+          }
+          sched_yield();
+        }
+      });
+      ec = reproc::drain(p, reproc::sink::thread_safe::string(so, mu), reproc::sink::thread_safe::string(se, mu));
+      stop_mon.store(true);
+      mon.join();
+      st_locked_looks += looks.load();
+      if (changed.load())
+        viol("thread-safe-sink-appends-while-mutex-held", idx, "the string changed " + std::to_string(changed.load()) + " times while another thread held the mutex given to sink::thread_safe::string");
+    }
     st_strings++;
     if (ec) viol("drain-unexpected-error", idx, ec.message());
     bool ok = so.size() == pre.size() + static_cast<size_t>(nout) && so.compare(0, pre.size(), pre) == 0;
@@ -252,6 +285,6 @@ int main(int argc, char **argv)
   rs = static_cast<uint64_t>(atol(argv[6])) * 0x9E3779B97F4A7C15ULL + static_cast<uint64_t>(w) * 7919 + 3;
   long n = (thorough ? 6000 : 480) / nw;
   for (long i = 0; i < n; i++) one_case(i * nw + w);
-  printf("S\t%ld\t%ld\t%ld\t%ld\t%ld\t%ld\t%ld\t%ld\n", st_cases, st_viol, st_calls, st_bytes, st_runs, st_stops, st_strings, st_timeouts);
+  printf("S\t%ld\t%ld\t%ld\t%ld\t%ld\t%ld\t%ld\t%ld\t%ld\n", st_cases, st_viol, st_calls, st_bytes, st_runs, st_stops, st_strings, st_timeouts, st_locked_looks);
   return st_viol ? 1 : 0;
 }
